@@ -40,7 +40,10 @@ func decodeToARGB(file []byte, limit time.Duration) (pix []int, w, h int, err er
 		pan any
 	}
 	ch := make(chan res, 1)
+	done := make(chan struct{})
+	cpu0 := procCPU(os.Getpid())
 	go func() {
+		defer close(done)
 		defer func() {
 			if r := recover(); r != nil {
 				ch <- res{nil, nil, r}
@@ -49,8 +52,16 @@ func decodeToARGB(file []byte, limit time.Duration) (pix []int, w, h int, err er
 		im, e := webp.Decode(bytes.NewReader(file))
 		ch <- res{im, e, nil}
 	}()
+	var r res
 	select {
-	case r := <-ch:
+	case r = <-ch:
+	case <-time.After(limit):
+		if hangVerdict(done, cpu0, limit) != "finished" {
+			return nil, 0, 0, nil, true
+		}
+		r = <-ch
+	}
+	{
 		if r.pan != nil {
 			return nil, 0, 0, fmt.Errorf("panic: %v", r.pan), false
 		}
@@ -65,8 +76,6 @@ func decodeToARGB(file []byte, limit time.Duration) (pix []int, w, h int, err er
 			}
 		}
 		return pix, b.Dx(), b.Dy(), nil, false
-	case <-time.After(limit):
-		return nil, 0, 0, nil, true
 	}
 }
 
